@@ -93,11 +93,24 @@ class C10(PropCheck):
             names, ops = l.split(" ; "), parse_out(io)
             what = None
             fresh = False   # the cached status byte describes the current state (right after update())
+            irq_mask = 0    # ghost: CONFIG bits 6..4 as the last interrupt_config() left them (0 = all events enabled)
             for k, (name, o) in enumerate(zip(names, ops)):
                 t = name.split()
                 if k == 0 or not o["radios"] or not ops[k - 1]["radios"]:
                     continue
                 r, pr = o["radios"][0], ops[k - 1]["radios"][0]
+                if t[0] == "a" and t[1] == "interrupt_config" and not o["res"].startswith("exc="):
+                    irq_mask = (0 if t[2] == "T" else 0x40) | (0 if t[3] == "T" else 0x20) | (0 if t[4] == "T" else 0x10)
+                elif t[0] == "a" and len(names[1].split()) > 1:
+                    # the IRQ line asserts for exactly the events enabled by the last interrupt_config() — also after role
+                    # changes, power toggles and traffic (none of the calls of these sessions may change the mask)
+                    if int(r["cfg"]) & 0x70 != irq_mask:
+                        what = (f"CONFIG={r['cfg']}: the IRQ mask set by the last interrupt_config() ({irq_mask:#04x}) was changed by "
+                                f"`{name}`: the IRQ line asserts for a disabled event / stays silent for an enabled one")
+                        break
+                    if (r["irq"] == "1") != bool(int(r["fl"]) & 0x70 & ~irq_mask):
+                        what = f"IRQ line is {r['irq']} with flags {r['fl']} and enabled events {0x70 & ~irq_mask:#04x}"
+                        break
                 rxf, txf, prxf, ptxf = flist(r["rxf"]), flist(r["txf"]), flist(pr["rxf"]), flist(pr["txf"])
                 fl, pfl = int(r["fl"]), int(pr["fl"])
                 res = o["res"]
